@@ -306,17 +306,20 @@ def _eq_paths(cfg, cx, ts):
                 mi_mod.jnp.allclose = real
             if any(tx is None or ty is None or tx != ty for tx, ty in seen):
                 typewise = False
-            rows.append((script, res))
+            rows.append((order_b, script, res))
     cx.structural(f"eq comparisons are type-wise [ts={cfg['ts']}]", typewise, "a block was compared with a block of another type (or a derived array)",
                   key=f"eq:typewise:ts={cfg['ts']}")
     # propositional equivalence, decided by z3: table(script) <-> AND_t close_t
     close = [S.CTX.bvar(f"close{i}") for i in range(n)]
-    table = S.FALSE
-    for script, res in rows:
-        if res:
-            table = S.bor(table, S.band(*[c if v else S.bnot(c) for c, v in zip(close, script)]))
     spec = S.band(*close)
-    goal = S.bor(S.band(table, spec), S.band(S.bnot(table), S.bnot(spec)))
+    goal = S.TRUE
+    table = S.FALSE
+    for ob in sorted({o for o, _, _ in rows}):   # one truth table per insertion order of the second operand: each must be the conjunction
+        table = S.FALSE
+        for o, script, res in rows:
+            if o == ob and res:
+                table = S.bor(table, S.band(*[c if v else S.bnot(c) for c, v in zip(close, script)]))
+        goal = S.band(goal, S.bor(S.band(table, spec), S.band(S.bnot(table), S.bnot(spec))))
     cx.holds(f"eq truth table == conjunction of type-wise closeness [ts={cfg['ts']}]", goal, key=f"eq:table:ts={cfg['ts']}",
              replay=replay_table)
     cx.holds("canary[eq == disjunction]", S.bor(S.band(table, S.bor(*close)), S.band(S.bnot(table), S.bnot(S.bor(*close)))), canary=True) if n > 1 else None
@@ -327,4 +330,10 @@ def _eq_paths(cfg, cx, ts):
     cx.structural("eq: different key sets unequal", not (a == b) and not (b == a), "multi-images with different type sets compare equal")
     cx.structural("eq: different flags unequal", not (a == c), "multi-images with different is_torus compare equal")
     cx.structural("eq: reflexive", bool(a == a.copy()), "a != copy(a)")
+    import jax
+    rev = geom.MultiImage({kp: a[kp] for kp in reversed(list(a.keys()))}, D, True)
+    cx.structural("eq: independent of insertion order and of pytree flattening",
+                  bool(a == rev) and bool(rev == a) and bool(rev == jax.jit(lambda q: q)(rev)) and bool(jax.tree_util.tree_map(lambda v: v, rev) == rev),
+                  "the same blocks compare unequal after re-insertion in another order / a jit or tree_map round trip",
+                  key=f"eq:order:ts={cfg['ts']}")
     cx.structural("eq: other classes", not (a == 3), "MultiImage == int")
